@@ -6,6 +6,190 @@ import (
 	"golang.org/x/tools/go/ssa"
 )
 
+// matchWorker: Route.Match written as a thin wrapper around a recursive worker that appends the
+// matches of a subtree to a list handed down (worker(node, list, labels) → (list, node matched)).
+func matchWorker(e *Eng, fn *ssa.Function) (*ssa.Function, *ssa.Call) {
+	var w *ssa.Function
+	var call *ssa.Call
+	for _, in := range AllInstrs(fn) {
+		c, ok := in.(*ssa.Call)
+		if !ok {
+			continue
+		}
+		f := c.Call.StaticCallee()
+		if f == nil || !isNewFunc(f) || len(e.Calls(f, fnName(f))) == 0 {
+			continue
+		}
+		if w != nil {
+			return nil, nil
+		}
+		w, call = f, c
+	}
+	if w == nil || len(w.Params) != 3 || w.Signature.Results().Len() != 2 {
+		return nil, nil
+	}
+	return w, call
+}
+
+// routeMatchAccumulator decides C07.1 for the worker form.  With W(node, list, labels) = (list', matched):
+//   (wrapper) Match returns the list of W(r, empty, lset);
+//   (a) the node's matchers fail ⇒ W returns (list, false) without consulting a child;
+//   (b) otherwise the children are consulted in configuration order, each with the list the previous
+//       one returned (the first with the list handed in) and the same labels, on every iteration;
+//   (c) the loop is left early only, and then always, after a child that matched and has continue unset;
+//   (d) the node itself is appended iff the list did not grow; (e) W returns (that list, true) and nothing else
+//       is ever put on the list.
+// By induction a matching node adds at least one entry (d), a non-matching one none (a), so "the list did
+// not grow" is "no child matched".
+func routeMatchAccumulator(o *Ob, fn, w *ssa.Function, outer *ssa.Call) {
+	e := o.E
+	wn := fnName(w)
+	o.Site(outer, "Route.Match delegates to "+wn)
+	// wrapper
+	for _, ret := range (&Walk{Fn: fn}).FromEntry().Returns() {
+		ex, ok := ret.Results[0].(*ssa.Extract)
+		o.Check(ok && ex.Tuple == ssa.Value(outer) && ex.Index == 0, "w-result", "Route.Match must return the list its worker built, returns "+clip(e.X(fn, ret.Results[0])), ret)
+	}
+	seed := outer.Call.Args[1]
+	k, isNil := seed.(*ssa.Const)
+	o.Check(e.Arg(outer, 0) == "recv" && e.Arg(outer, 2) == "p0" && (isNil && k.Value == nil || IsEmptySlice(seed)), "w-args", "the worker must start at the node Match is called on, with an empty list and the given labels: "+clip(e.X(fn, outer)), outer)
+	M := LRe(`^\(am/pkg/labels\.Matchers\)\.Matches\(recv\.Matchers, p1\)$`, true)
+	o.RequireFn(e.CountLitEdges(w, M)+e.CountLitEdges(w, M.Neg()) > 0, "no-matcher-test", wn+" does not branch on r.Matchers.Matches(lset)", w)
+	rec0 := o.One(e.Calls(w, wn), "b-rec", "recursive descent into children", w)
+	rec := rec0.(*ssa.Call)
+	// (a)
+	{
+		r := (&Walk{Fn: w, Cut: e.CutContradicting(M.Neg())}).FromEntry()
+		rets := r.Returns()
+		o.Require(len(rets) > 0, "a-noreturn", "no return reachable when matchers fail", nil)
+		for _, ret := range rets {
+			l, m := e.ValStrs(w, e.RetVals(r, ret, 0)), e.ValStrs(w, e.RetVals(r, ret, 1))
+			o.Site(ret, "return under ¬Matches = "+strings.Join(l, "|")+", "+strings.Join(m, "|"))
+			o.Check(len(l) == 1 && l[0] == "p0", "a-nonnil", "when the node's matchers do not match, the list must come back unchanged but may be "+strings.Join(l, "|"), ret)
+			o.Check(len(m) == 1 && m[0] == "false", "a-matched", "when the node's matchers do not match, the worker must say so but may answer "+strings.Join(m, "|"), ret)
+		}
+		o.Check(!r.Has(rec), "a-descend", "children are consulted although the node's matchers failed", rec)
+	}
+	// (b)
+	o.Site(rec, "recursive call "+clip(e.X(w, rec)))
+	o.Check(e.Arg(rec, 0) == "recv.Routes[i]" && e.Arg(rec, 2) == "p1", "b-args", "the recursive call must be on r.Routes[i] with the same label set, got "+clip(e.X(w, rec)), rec)
+	l := e.LoopOf(rec)
+	o.Require(l != nil, "b-noloop", "the recursive call is not inside a loop over the children", rec)
+	coll, kind := e.RangeOver(l)
+	o.Check(coll == "recv.Routes" && kind == "index", "b-range", "the loop must visit r.Routes in ascending index order, ranges over "+coll+" ("+kind+")", rec)
+	isGrown := func(v ssa.Value) bool {
+		ex, ok := v.(*ssa.Extract)
+		return ok && ex.Tuple == ssa.Value(rec) && ex.Index == 0
+	}
+	acc, isPhi := rec.Call.Args[1].(*ssa.Phi)
+	if o.Check(isPhi && acc.Block() == l.Header, "b-thread", "each child must extend the list the previous child returned, is handed "+clip(e.X(w, rec.Call.Args[1])), rec) {
+		for i, ed := range acc.Edges {
+			if l.Blocks[l.Header.Preds[i].Index] {
+				o.Check(isGrown(ed), "b-keep-all", "the list a child returned must be carried to the next child, carried is "+clip(e.X(w, ed)), rec)
+			} else {
+				o.Check(e.X(w, ed) == "p0", "b-seed", "the first child must extend the list handed in, extends "+clip(e.X(w, ed)), rec)
+			}
+		}
+	}
+	{
+		bi, _ := l.BodyEntry()
+		r := (&Walk{Fn: w, Barrier: IsInstr(rec)}).FromEdge(l.Header, bi)
+		for _, ex := range e.EarlyExits(l) {
+			o.Check(!r.Has(ex) || ex.Block() == l.Header, "b-skip", "an iteration can leave or skip without asking the child", ex)
+		}
+		back := false
+		for _, be := range l.Back {
+			if r.Edge[be] {
+				back = true
+			}
+		}
+		o.Check(!back, "b-skip-continue", "an iteration can continue to the next child without asking this one", rec)
+	}
+	// (c)
+	matched := L(e.X(w, rec)+"#1", true)
+	noCont := L("recv.Routes[i].Continue", false)
+	o.LoopExitsGuarded(l, "c-exit-matched", "leaving the child loop early requires that the child matched", matched)
+	o.LoopExitsGuarded(l, "c-exit-continue", "leaving the child loop early requires that the child has continue unset", noCont)
+	{
+		bi, _ := l.BodyEntry()
+		r := (&Walk{Fn: w, Cut: e.CutContradicting(matched, noCont)}).FromEdge(l.Header, bi)
+		back := false
+		for _, be := range l.Back {
+			if r.Edge[be] {
+				back = true
+			}
+		}
+		o.Check(e.CountLitEdges(w, noCont)+e.CountLitEdges(w, noCont.Neg()) > 0, "c-no-continue-test", "the loop does not test the child's Continue flag", rec)
+		o.Check(e.CountLitEdges(w, matched)+e.CountLitEdges(w, matched.Neg()) > 0, "c-no-matched-test", "the loop does not test whether the child matched", rec)
+		o.Check(!back, "c-must-stop", "after a matching child without continue the search must stop, but the loop can go on to the next sibling", rec)
+	}
+	// (d), (e)
+	{
+		r := (&Walk{Fn: w, Cut: e.CutContradicting(M)}).FromEntry()
+		var selfSites []ssa.Instruction
+		var bases []ssa.Value
+		var leaves func(v ssa.Value, at ssa.Instruction, seen map[ssa.Value]bool)
+		leaves = func(v ssa.Value, at ssa.Instruction, seen map[ssa.Value]bool) {
+			if seen[v] {
+				return
+			}
+			seen[v] = true
+			if v == ssa.Value(acc) || isGrown(v) {
+				return
+			}
+			switch x := v.(type) {
+			case *ssa.Phi:
+				for _, ed := range x.Edges {
+					leaves(ed, at, seen)
+				}
+				return
+			case *ssa.Call:
+				if isBuiltinCall("append")(x) {
+					els := VariadicElems(x)
+					o.Check(len(els) == 1 && e.X(w, els[0]) == "recv", "e-foreign", "something other than the node itself is added to the matches: "+clip(e.X(w, x)), x)
+					selfSites = append(selfSites, x)
+					bases = append(bases, x.Call.Args[0])
+					leaves(x.Call.Args[0], at, seen)
+					return
+				}
+			}
+			o.Fail("e-foreign", "the list of matches is "+clip(e.X(w, v))+": neither the list the children built nor that list with the node itself", at)
+		}
+		for _, ret := range r.Returns() {
+			m := e.ValStrs(w, e.RetVals(r, ret, 1))
+			o.Site(ret, "returns "+clip(e.X(w, ret.Results[0])))
+			o.Check(len(m) == 1 && m[0] == "true", "e-matched", "a node whose matchers match must report that it matched, may answer "+strings.Join(m, "|"), ret)
+			leaves(ret.Results[0], ret, map[ssa.Value]bool{})
+		}
+		o.Check(len(selfSites) > 0, "d-self", "the node itself must be part of the result when no child matched", rec)
+		emp := LitM{"len(list) unchanged", func(li Lit) bool {
+			if !li.Pos {
+				return false
+			}
+			for _, b := range bases {
+				x := e.X(w, b)
+				if li.Atom == "(len(p0) == len("+x+"))" || li.Atom == "(len("+x+") == len(p0))" {
+					return true
+				}
+			}
+			return false
+		}}
+		for _, ss := range selfSites {
+			o.Guarded(ss, "d-self-guard", "adding the node itself", emp)
+		}
+		if len(selfSites) > 0 {
+			if o.Check(e.CountLitEdges(w, emp)+e.CountLitEdges(w, emp.Neg()) > 0, "d-self-forced", "when no child matched the node itself must be returned: the worker no longer tests whether the list grew", rec) {
+				rr := (&Walk{Fn: w, Cut: e.CutContradicting(M, emp), Barrier: IsInstr(selfSites...)}).FromEntry()
+				for _, ret := range rr.Returns() {
+					o.Fail("d-self-forced", "when no child matched the node itself must be returned", ret)
+				}
+				o.Checks++
+				o.Passed++
+			}
+		}
+	}
+}
+
 func init() {
 	propInfos["C07"] = &propInfo{
 		Explanation: "Decides the shape of the routing function and of option inheritance: (1) Route.Match returns nothing iff the node's matchers fail, recurses into the children in configuration order with the same label set, keeps all of each child's result, stops after a child only when that child matched and has continue unset, and adds the node itself iff no child matched; (2) newRoute starts from the parent's options (defaults at the root) and overwrites receiver, group_by, group_wait, group_interval, repeat_interval, labels only when the child sets them, from the child's own field, merging labels into a fresh map; (3) children are built from all configured child routes with the node as parent and matchers are the union of match, match_re and matchers; (4) API, amtool and dispatcher route through the one Route.Match on a tree built by NewRoute(cfg.Route, nil).",
@@ -16,6 +200,13 @@ func init() {
 		e := o.E
 		fn := o.Fn("(*am/dispatch.Route).Match")
 		M := LRe(`\(am/pkg/labels\.Matchers\)\.Matches\(recv\.Matchers, p0\)`, true)
+		if e.CountLitEdges(fn, M)+e.CountLitEdges(fn, M.Neg()) == 0 {
+			if w, call := matchWorker(e, fn); w != nil {
+				routeMatchAccumulator(o, fn, w, call)
+				o.MinSites(3)
+				return
+			}
+		}
 		o.RequireFn(e.CountLitEdges(fn, M)+e.CountLitEdges(fn, M.Neg()) > 0, "no-matcher-test", "Route.Match no longer branches on r.Matchers.Matches(lset)", fn)
 		// (a) matchers fail -> only nil is returned
 		{
